@@ -15,3 +15,9 @@ FIRST_ADV_CHANNEL = 37
 WHITEN_SEED_BIT = 0x40          # LFSR position 0 is set to one, positions 1-6 hold the channel index
 UUID_TEMPERATURE, UUID_BATTERY, UUID_EDDYSTONE = 0x1809, 0x180F, 0xFEAA
 EDDYSTONE_URL_FRAME = 0x10
+
+
+# Eddystone-URL specification (github.com/google/eddystone/tree/master/eddystone-url): URL scheme prefix codes and expansion codes
+URL_SCHEME_PREFIXES = {0: "http://www.", 1: "https://www.", 2: "http://", 3: "https://"}
+URL_EXPANSIONS = {0: ".com/", 1: ".org/", 2: ".edu/", 3: ".net/", 4: ".info/", 5: ".biz/", 6: ".gov/",
+                  7: ".com", 8: ".org", 9: ".edu", 10: ".net", 11: ".info", 12: ".biz", 13: ".gov"}
